@@ -11,6 +11,8 @@ scratch directory; the emitted JSON is then loaded exactly as `torchtree --dry` 
    skygrid, piecewise-constant, piecewise-linear, skyglide, piecewise-exponential,
    bd-constant, bdsk} )  = 4*9*2*2*67 = 9648 command lines (thorough tier: every clock
    configuration a second time with contemporaneous tips, --dates 0: 19152);
+ * core x switch: on HKY (thorough: also GTR+G4+I) every (sub-command, clock, heights, tree
+   prior) combination x every level of every model/initialisation switch alone;
  * switches: on representative cores, for every sub-command: (1) every level of every other
    documented switch alone, (2) a pairwise covering array over the levels the CLI accepted
    alone (asserted complete), (3) for every pair not covered by an *emitted* row the
@@ -207,6 +209,31 @@ REP_CORES = [
     {"model": "LG", "C": 4, "I": True, "clock": "strict", "heights": "ratio", "prior": "skyglide"},
 ]
 QUICK_REP = [0, 1, 2]
+
+
+# switches that change the model / its initial values (crossed with the whole clock x heights x
+# tree-prior core in part B); the remaining evolution switches only pass flags through
+MODEL_SWITCHES = ["freq", "brlenspr", "brlens_init", "keep", "clockpr", "heights_init", "root_height_init",
+                  "rate", "rate_init", "dates", "grid", "cutoff", "gmrf_integrated", "non_centered",
+                  "coalescent_init", "coalescent_integrated", "coalescent_temperature", "disable_time_aware",
+                  "disable_gmrf_rescaling"]
+
+
+def tree_core_switch_cases(tier):
+    """Part B: every (sub-command, clock, heights, tree prior) combination x every level of every
+    model/initialisation switch alone, on HKY (thorough: also GTR+G4+I)."""
+    shapes = [("HKY", 1, False)] + ([("GTR", 4, True)] if tier == "thorough" else [])
+    out = []
+    for sub in SUBS:
+        for m, C, inv in shapes:
+            combos = [(None, None, None)] + [(c, h, p) for c in CLOCKS for h in HEIGHTS for p in PRIORS]
+            for c, h, p in combos:
+                b = {"sub": sub, "model": m, "C": C, "I": inv, "clock": c, "heights": h, "prior": p}
+                for f in MODEL_SWITCHES:
+                    if FACTORS[f][1](b):
+                        for lv in FACTORS[f][0]:
+                            out.append(dict(b, part="coreswitch", extra={f: lv}))
+    return out
 
 
 def applicable(core):
@@ -521,6 +548,7 @@ def accounting(spec, dic, target_id, moved_objs):
     fails = []
     tval = float(dic[target_id]().sum())
     tot = dens_sum + sum(t[1] for t in terms)
+    split_err = abs(tval - tot) / max(1.0, abs(tval))
     if not abs(tval - tot) <= TOL_SPLIT * max(1.0, abs(tval)):
         fails.append(("target_split", "target differs from the sum of its entries",
                       f"{target_id}() = {tval!r} but its entries sum to {tot!r}"))
@@ -603,7 +631,7 @@ def accounting(spec, dic, target_id, moved_objs):
     comps = {}
     for i in range(len(ulist)):
         comps.setdefault(find(i), []).append(i)
-    info = {"blocks": 0, "judged": 0, "incomplete": 0, "singular": 0, "moved": len(ulist),
+    info = {"split_err": split_err, "blocks": 0, "judged": 0, "incomplete": 0, "singular": 0, "moved": len(ulist),
             "terms": [t[0] for t in terms]}
     for rootc, members in sorted(comps.items()):
         mset = set(members)
@@ -627,6 +655,8 @@ def accounting(spec, dic, target_id, moved_objs):
         info["judged"] += 1
         info.setdefault("judged_names", []).append("+".join(sorted(names)))
         got = sum(t[1] for t in tms)
+        if abs(got - logdet) <= TOL_ACCOUNT * max(1.0, abs(logdet)):
+            info["max_err"] = max(info.get("max_err", 0.0), abs(got - logdet) / max(1.0, abs(logdet)))
         if not abs(got - logdet) <= TOL_ACCOUNT * max(1.0, abs(logdet)):
             listed = [t[0] for t in tms]
             block = "+".join(sorted(names))
@@ -643,6 +673,9 @@ def sorted_close(got, want, tol):
     return len(got) == len(want) and all(abs(a - b) <= tol * max(1.0, abs(b)) for a, b in zip(got, want))
 
 
+MAXREL = [0.0]  # largest accepted relative deviation of an initial value (calibration record)
+
+
 def check_init(case, dic):
     """Requested initial values (only explicit requests on the command line)."""
     ex = case.get("extra") or {}
@@ -655,6 +688,9 @@ def check_init(case, dic):
     def expect(what, got, want, multiset=False):
         nonlocal n
         n += 1
+        if len(got) == len(want):
+            pairs = zip(sorted(got), sorted(want)) if multiset else zip(got, want)
+            MAXREL[0] = max([MAXREL[0]] + [abs(a - b) / max(1.0, abs(b)) for a, b in pairs if abs(a - b) <= TOL_INIT * max(1.0, abs(b))])
         ok = sorted_close(got, want, TOL_INIT) if multiset else (
             len(got) == len(want) and all(abs(a - b) <= TOL_INIT * max(1.0, abs(b)) for a, b in zip(got, want)))
         if not ok:
@@ -823,6 +859,7 @@ def _judge(case, spec, res, seed):
     f, n = check_init(case, dic)
     fails += f
     res["info"]["init_checked"] = n
+    res["info"]["init_maxrel"] = MAXREL[0]
 
     # -- a second, fresh load at a generic point next to the initial one
     dic2 = moved2 = None
@@ -976,6 +1013,8 @@ def _run(run):
 
     core = core_cases(tier)
     execute(core)
+    coreswitch = tree_core_switch_cases(tier)
+    execute(coreswitch)
 
     # ---- switches on representative cores
     reps = [REP_CORES[i] for i in (QUICK_REP if tier == "quick" else range(len(REP_CORES)))]
@@ -1089,7 +1128,8 @@ def _run(run):
         "rule": "one evaluation = one torchtree-cli command line run in-process and, if JSON is emitted, loaded as "
                 "`torchtree --dry` does and judged (load, finite target and gradient, requested initial values, "
                 "Jacobian accounting per block); full product of the model-defining core (sub-command x model x "
-                "categories x invariant x clock x heights x tree prior), plus on representative cores every level "
+                "categories x invariant x clock x heights x tree prior); every (sub-command, clock, heights, tree "
+                "prior) x every level of every model/initialisation switch alone; on representative cores every level "
                 "of every other documented switch alone, a pairwise covering array of the accepted levels and the "
                 "minimal row for every pair not covered by an emitted row; distinct_nontrivial = distinct "
                 "canonical command lines for which the CLI emitted a configuration (rejected/died ones excluded)",
@@ -1097,6 +1137,7 @@ def _run(run):
         "exhaustive": True,
         "core_command_lines": len(core),
         "core_closed_form": ("4*9*2*2*(1+3*2*11*2)" if tier == "thorough" else "4*9*2*2*(1+3*2*11)") + f" = {core_size(tier)}",
+        "tree_core_x_switch_rows": len(coreswitch),
         "single_switch_rows": len(singles),
         "pairwise_rows": len(pair_rows),
         "pair_fill_rows": len(fill),
@@ -1122,6 +1163,11 @@ def _run(run):
         "distinct_target_values": len(outcomes),
         "phase_cases_wall_s": phases,
         "tolerances": {"accounting": TOL_ACCOUNT, "target_split": TOL_SPLIT, "init_relative": TOL_INIT},
+        "largest_accepted_deviation": {
+            "accounting": max([r["info"].get("max_err", 0.0) for _, r in emitted] + [0.0]),
+            "target_split": max([r["info"].get("split_err", 0.0) for _, r in emitted
+                                 if r["info"].get("split_err", 0.0) <= TOL_SPLIT] + [0.0]),
+            "init_relative": max([r["info"].get("init_maxrel", 0.0) for _, r in emitted] + [0.0])},
     }
     return run.finish(cov, assumptions=[
         "one 4-taxon fixture (heterochronous dates in the names, a time tree; an ultrametric tree for --dates 0)",
